@@ -95,6 +95,10 @@ def scenarios(rng, quick):
                 and not sc.name.endswith("-ttl"):
             sc.extra.setdefault("errors", ["EA", "EB", "E"])
             out.append(sc)
+    # the witnesses of the findings of the fan-out protocol model: a later failure of a nested state re-failing the
+    # enclosing one; three levels of nesting; the back stop ending the execution under a stalled top-level event
+    have = {sc.name for sc in out}
+    out += [w for w in engine_props.fan_witnesses() if w.name not in have]
     return out
 
 
@@ -143,7 +147,7 @@ class expect(object):
     @staticmethod
     def post(scn, fv, pre, m):
         probs = []
-        if m is not None:
+        if m is not None and "TimeoutSeconds" not in scn.machine:      # (the reference semantics has no execution time limit)
             mv = c01.model_view(m)
             if mv["status"] in ("SUCCEEDED", "FAILED"):
                 if fv.get("status") != mv["status"]:
